@@ -2046,3 +2046,53 @@ def r8(cx):
 
 
 RS.explanation += (' The scanner of [. .] [= =] [: :] is evaluated on all short inputs and closes at the first delimiter followed by `]` (R8).')
+
+
+
+# ---------------------------------------------------------------------------------------
+# added after the audit C04h4 (`p='\'; case x in $p""*)` matched: the backslash escaped the quoting character `"`, which is then dropped)
+@RS.rule('C04.R9', 'K-GUARD', 'an unquoted backslash coming from an expansion escapes the next character OF THE PATTERN (XCU 2.13.1): the element that '
+         'apply_escapes marks is_quoted is one whose is_quoting flag was found false - quoting characters in between (an empty pair of '
+         'quotes) are not part of the pattern and are dropped by to_pattern_chars, so marking one of them escapes nothing')
+def r9(cx):
+    F = cx.F
+    ab = F.inlined(F.inlined(F.body(APPLY_ESCAPES)))
+    cx.fn(APPLY_ESCAPES)
+    du = Q.DefUse(ab)
+    writes = [(b, st) for b, j, st in ab.stmts() if st['k'] == 'assign' and _field_of(st['lhs'], ATTRCHAR, ('is_quoted',))]
+    cx.require(writes, 'apply_escapes no longer sets is_quoted (anchor moved)')
+    # values that come out of a search for a non-quoting element
+    searched = set()
+    for blk, t in ab.calls():
+        if Q.callee_is(t, [re.compile(r'::Iterator::(position|find|find_map|skip_while|rposition)$'), re.compile(r'::(iter::)?position$')]):
+            clo = du.origin(t['a'][1]) if len(t['a']) > 1 else {'k': '?'}
+            cb = F.bodies.get(clo['rv'].get('def')) if clo.get('k') == 'agg' else None
+            if cb is not None and any(s2['k'] == 'assign' and any(_field_of(p_, ATTRCHAR, ('is_quoting',)) for p_ in Q.rvalue_places(s2['rv']))
+                                      for b2, j2, s2 in cb.stmts()):
+                searched.add(t['dest']['l'])
+    searched = Q.forward_taint(ab, searched, through_calls=Q.PROPAGATING_CALLS + Q.TRY_BRANCH +
+                               [re.compile(r'option::Option::<T>::\w+$'), re.compile(r'::Iterator::\w+$')]) if searched else set()
+    for b, st in writes:
+        idx = [e['idx'] for e in st['lhs'].get('p') or [] if isinstance(e, dict) and 'idx' in e]
+        by_search = any(i in searched or any((Q.operand_place(o) or {}).get('l') in searched for o in Q.rvalue_operands(dd[2]['rv'])
+                                             if dd[1] != 't') for i in idx for dd in ([du.single_def(i)] if du.single_def(i) else [])) \
+            or any(i in searched for i in idx)
+        # or: reached through a reference found by the search (`if let Some(next) = rest.iter_mut().find(|c| !c.is_quoting)`)
+        base = st['lhs']['l']
+        by_search = by_search or base in searched
+        by_test = False
+        for org, lab, e in Q.implied_conditions(F, ab, du, b):
+            org, lab = Q.peel_not(du, org, lab)
+            if org['k'] == 'place' and lab == ('bool', False) and _field_of(org['pl'], ATTRCHAR, ('is_quoting',)):
+                tested_idx = [e2['idx'] for e2 in org['pl'].get('p') or [] if isinstance(e2, dict) and 'idx' in e2]
+                if (tested_idx and idx and _canon_local(du, tested_idx[0]) == _canon_local(du, idx[0])) or \
+                        (not tested_idx and not idx and _canon_local(du, org['pl']['l']) == _canon_local(du, base)):
+                    by_test = True
+        cx.site('apply_escapes: is_quoted set at %s on an element found non-quoting: by search %s, by test %s' % (ab.loc(st), by_search, by_test))
+        if not (by_search or by_test):
+            cx.violation(APPLY_ESCAPES, 'escape-lands-on-quoting-character', 'apply_escapes marks the element right after the backslash as quoted without '
+                         'looking whether it is a quoting character: with p=\'\\\', `case x in $p""*)` matches (the `"` is "escaped", then '
+                         'dropped, and `*` stays active; dash and bash: no match), `${v##$p""*}` on `*x` removes everything', loc=ab.loc(st))
+
+
+RS.explanation += ' The character escaped by an unquoted backslash from an expansion is the next non-quoting one (R9).'
